@@ -17,6 +17,13 @@ def run(ctx):
         C09_bin = None
     if C09_bin:
         C09_bin.run_binary(ctx)
+    # >>> a_c09 (wave 4): document-derived oracles, every Open, small buffers, all compositions, dense braces,
+    #     skip_unquoted_value gaps, SWAR leaves; binary: drain after the skip, two skips in one run
+    from props import C09_doc
+    C09_doc.run_doc(ctx)
+    if C09_bin and hasattr(C09_bin, "run_binary_more"):
+        C09_bin.run_binary_more(ctx)
+    # <<< a_c09
 
 
 def search(ctx):
